@@ -94,7 +94,9 @@ func FindFunc(name string, pkgs ...*Package) (fi *FuncInfo) {
 		fi = pkg.funcs[vname]
 	}
 	if fi != nil {
-		if private || fi.Export || CurrentPackage == fi.Pkg {
+		// A function the package imported is found in that package just
+		// like an imported variable is, exported by its home package or not.
+		if private || fi.Export || CurrentPackage == fi.Pkg || (pkg == CurrentPackage && pkg.Imports[vname] != nil) {
 			return fi
 		}
 		fi = nil
